@@ -37,8 +37,12 @@ def s_cse_variants(rng, nval):
     """Named values that differ in exactly one field of the CSE key."""
     types = gen.Types(rng)
     prog = [["input", "a", types.fresh(), gen.rand_value(rng, True)], ["input", "b", types.fresh(), gen.rand_value(rng, True)]]
-    op = rng.choice(["+", "-", "*", "/", "AND", "XOR"])
-    op2 = rng.choice([o for o in ["+", "-", "*", "/", "AND", "XOR"] if o != op])
+    ALL = ["+", "-", "*", "/", "%", "**", "<<", ">>", "AND", "OR", "XOR"]
+    op = rng.choice(ALL)
+    op2 = rng.choice([o for o in ALL if o != op])
+    small = op in ("**", "<<", ">>") or op2 in ("**", "<<", ">>")
+    if small:   # keep exponents / shift amounts in the specified domain
+        prog[0][3], prog[1][3] = rng.randint(0, 6), rng.randint(0, 6)
     t1, t2 = types.fresh(), types.fresh()
     k = rng.randint(1, 9)
     items = [
@@ -59,6 +63,8 @@ def s_cse_variants(rng, nval):
     rng.shuffle(items)
     for i, e in enumerate(items[: rng.randint(5, len(items))]):
         prog.append(["sig", "x%d" % i, e])
+    if small:
+        return _mk(prog, "cse_key_variants", rng, nval, edges={"a": list(range(0, 7)), "b": list(range(0, 7))}, small_domain=True)
     return _mk(prog, "cse_key_variants", rng, nval, edges={"a": list(range(-2, 12))})
 
 
@@ -185,6 +191,11 @@ def gen_cases(tier, seed):
         c = f(sub, nval)
         c["id"] = i
         cases.append(c)
+    for op in ["+", "-", "*", "/", "%", "**", "<<", ">>", "AND", "OR", "XOR"]:
+        for _rep in range(1 if tier == "quick" else 6):
+            c = C01.s_commuted(random.Random(rng.randrange(1 << 60)), nval, op)
+            c["id"] = len(cases)
+            cases.append(c)
     return cases
 
 
